@@ -9,24 +9,25 @@ abstraction (the `view()` of these objects) is the SET of flat point indices the
                                 selects exactly the elements whose C-order flat index is in the set
 """
 from .arr import SymArr, as_array, _prod
+from .core import Proxy  # noqa
 from .core import SymNum, Unsupported, and_, ctx, is_sym, lift
 
 
-class SymIndexSet:
+class SymIndexSet(Proxy):
     def __init__(self, n, member, what=""):
         self.n = n
         self.member = member  # flat index (V int) -> V bool
         self.what = what
 
 
-class SymIndexArr:
+class SymIndexArr(Proxy):
     def __init__(self, iset):
         self.iset = iset
         self.ndim = 1
         self.kind = "i"
 
 
-class SymIndexTuple:
+class SymIndexTuple(Proxy):
     """Tuple of index arrays (one per dimension of `shape`) selecting exactly `iset`."""
 
     def __init__(self, iset, shape):
@@ -37,7 +38,7 @@ class SymIndexTuple:
         return len(self.shape)
 
 
-class GenericElem:
+class GenericElem(Proxy):
     """One representative of a symbolic-length sequence: elem(k) for an arbitrary index k."""
 
     def __init__(self, count, at):
@@ -49,7 +50,7 @@ class GenericElem:
         return GenericElem(self.count, lambda k: f(at(k)))
 
 
-class BallResult:
+class BallResult(Proxy):
     """cKDTree.query_ball_point(x, r, p=inf): per query row k the set {j : max_d |P[j,d]-x[k,d]| <= r}."""
 
     def __init__(self, tree, nq, xq, r, single, p=float("inf")):
